@@ -396,7 +396,7 @@ func runStep(r *common.Rand, e *exec, o *progOpts) string {
 		return f(r)
 	}
 	total := 0
-	kinds := []string{"upload", "overwrite", "delete", "delete_absent", "patch", "patch_absent", "compose", "copy", "burst", "patch_burst", "patch_full", "patch_bad", "bucket_cycle", "noop", "reads", "decoy", "dirs", "big_same"}
+	kinds := []string{"upload", "overwrite", "delete", "delete_absent", "patch", "patch_absent", "compose", "copy", "burst", "patch_burst", "patch_full", "patch_bad", "bucket_cycle", "noop", "reads", "decoy", "dirs", "big_same", "sibling", "compose_chain"}
 	for _, k := range kinds {
 		total += o.W[k]
 	}
@@ -475,6 +475,10 @@ func runStep(r *common.Rand, e *exec, o *progOpts) string {
 		return dirsStep(r, e, o, b)
 	case "big_same":
 		return bigSameStep(r, e, o, b)
+	case "sibling":
+		return siblingStep(r, e, o, b)
+	case "compose_chain":
+		return composeChainStep(r, e, o, b)
 	case "burst":
 		n, ok := pickTarget(r, e, o, b)
 		if !ok {
@@ -1065,4 +1069,351 @@ func bigSameStep(r *common.Rand, e *exec, o *progOpts, b string) string {
 		})
 	}
 	return up(n, protos[0])(r)
+}
+
+// siblingSuffixes: what an implementation might append to an object's name for files of its own next to the object's -
+// temporaries, sidecars, backups, locks. A name continued by one of them is an object name like any other.
+var siblingSuffixes = []string{".tmp", ".tmp", ".meta", "~", ".part", ".bak", ".lock", ".new", ".old", ".swp", ".tmp.tmp", "-tmp", ".emumeta.tmp", ".json", ".emumeta"}
+
+// siblingName derives from name the name of a sibling: name + suffix, or (one time in eight) a hidden file next to it
+// (".<base>.swp", "#<base>#" in the same "directory").
+func siblingName(r *common.Rand, name string) string {
+	if r.Chance(1, 8) {
+		dir, base := "", name
+		if i := strings.LastIndex(name, "/"); i >= 0 {
+			dir, base = name[:i+1], name[i+1:]
+		}
+		if r.Bool() {
+			return dir + "." + base + ".swp"
+		}
+		return dir + "#" + base + "#"
+	}
+	return name + common.Pick(r, siblingSuffixes)
+}
+
+// richUpload draws a multipart / resumable upload that succeeds and carries non-default metadata: a content type, user
+// metadata, most of the time nested fields (acl entries, owner, ...), sometimes a declared (right) MD5.
+func richUpload(r *common.Rand, o *progOpts, b, n string) *uploadSpec {
+	u := genUpload(r, o, b, n)
+	for tries := 0; u.Proto == "media" && tries < 50; tries++ {
+		u = genUpload(r, o, b, n)
+	}
+	if u.Proto == "media" {
+		u.Proto, u.Gzip = "multipart", false
+	}
+	u.CT, u.CTMode = common.Pick(r, contentTypes), "both"
+	u.UserMeta = genUserMeta(r)
+	u.UserMeta["of"] = n
+	if r.Chance(3, 4) {
+		u.Extra = genExtra(r)
+	}
+	u.MD5 = common.Pick(r, []string{"", "right"})
+	u.Conds = model.Conds{}
+	return u
+}
+
+// siblingStep starts the "sibling names" scenario: two objects whose names extend one another by a suffix that a store
+// implementation might use for its own temporary / sidecar / backup / lock files (X and X.tmp, X.meta, X~, X.part, X.bak,
+// X.lock, .X.swp ...; under file rules only names the file store can hold). Both are given non-default metadata (content
+// type, user metadata, acl / owner ..., most of the time a patch on top: metageneration > 1); then 3-6 requests - overwrite
+// by any protocol, patch, copy onto it (also from the sibling: "upload to name.tmp, then rewrite to name"), compose onto
+// it, delete and re-creation - are addressed to one of the two, one request per step. The caller's dump after every
+// request compares BOTH objects (content, content type, user metadata, MD5, generation, metageneration) with the model
+// and, after a refused request, with the dump before it.
+func siblingStep(r *common.Rand, e *exec, o *progOpts, b string) string {
+	skip := func() string {
+		e.mustSame, e.readOnly = true, true
+		return ""
+	}
+	live := e.liveIn(b)
+	var x string
+	ok := false
+	if len(live) > 0 && r.Chance(2, 3) {
+		x, ok = common.Pick(r, live), true
+	}
+	if !ok {
+		if x, ok = pickTarget(r, e, o, b); !ok {
+			return skip()
+		}
+	}
+	if strings.HasSuffix(x, "/") || len(x) > 900 {
+		return skip()
+	}
+	y := ""
+	for tries := 0; tries < 12 && y == ""; tries++ {
+		c := siblingName(r, x)
+		if c == x || hasVerb(c) || (o.FileRules && (!representable(c, append(append([]string(nil), live...), x)) || !representable(x, append(append([]string(nil), live...), c)))) {
+			continue
+		}
+		y = c
+	}
+	if y == "" {
+		return skip()
+	}
+	added := false
+	for _, n := range []string{x, y} {
+		if !contains(e.universe[b], n) {
+			e.universe[b] = append(e.universe[b], n)
+			added = true
+		}
+	}
+	if added {
+		if msg := e.verify(); msg != "" {
+			return fmt.Sprintf("dump that first reads the name %q: %s", y, msg)
+		}
+	}
+	e.stats["sibling_scenarios"]++
+	if strings.HasPrefix(y, x) {
+		e.stats["sibling_scenarios_suffix "+strings.TrimPrefix(y, x)]++
+	} else {
+		e.stats["sibling_scenarios_hidden_file_form"]++
+	}
+	// both get non-default metadata
+	var first []func(r *common.Rand) string
+	for _, n := range []string{x, y} {
+		n := n
+		if e.m.Get(b, n) == nil || r.Chance(1, 3) {
+			first = append(first, func(r *common.Rand) string { return e.upload(richUpload(r, o, b, n), r) })
+		}
+		if r.Chance(2, 3) {
+			first = append(first, func(r *common.Rand) string {
+				if e.m.Get(b, n) == nil {
+					return skip()
+				}
+				return e.patch(b, n, genPatchFields(r), model.Conds{})
+			})
+		}
+	}
+	// then requests addressed to one of them while the other one is there
+	for i, k := 0, r.Range(3, 6); i < k; i++ {
+		e.queue = append(e.queue, func(r *common.Rand) string {
+			t, other := x, y
+			if r.Chance(1, 3) {
+				t, other = y, x
+			}
+			if oo := e.m.Get(b, other); oo != nil {
+				e.stats["sibling_requests_next_to_a_live_sibling"]++
+				if len(oo.Learned) > 1 || oo.Metagen > 1 {
+					e.stats["sibling_requests_next_to_a_live_sibling_with_metadata"]++
+				}
+			}
+			now := e.liveIn(b)
+			cur := e.m.Get(b, t)
+			if cur == nil && o.FileRules && !representable(t, now) {
+				return e.reads(r, b, t)
+			}
+			var c model.Conds
+			if r.Chance(1, 5) {
+				c = genConds(r, e, o, b, t)
+			}
+			switch z := r.Intn(12); {
+			case cur == nil || z < 3:
+				u := genUpload(r, o, b, t)
+				u.Conds = c
+				return e.upload(u, r)
+			case z < 6:
+				return e.patch(b, t, genPatchFields(r), c)
+			case z < 8:
+				// "upload to name.tmp, then rewrite to name" - or a copy from any other live object
+				src := other
+				if e.m.Get(b, other) == nil || r.Chance(1, 3) {
+					src = common.Pick(r, now)
+				}
+				return e.copyObj(b, src, b, t)
+			case z < 10:
+				spec := &composeSpec{Bucket: b, Dst: t, CT: common.Pick(r, contentTypes), Conds: c}
+				for i, k := 0, r.Range(1, 3); i < k; i++ {
+					spec.Srcs = append(spec.Srcs, composeSrc{Name: common.Pick(r, now)})
+				}
+				if r.Bool() {
+					spec.UserMeta = genUserMeta(r)
+				}
+				return e.compose(spec)
+			case z == 10:
+				return e.del(b, t, c)
+			}
+			return e.reads(r, b, t)
+		})
+	}
+	e.queue = append(first, e.queue...)
+	f := e.queue[0]
+	e.queue = e.queue[1:]
+	return f(r)
+}
+
+// composeChainStep starts the "shared head" scenario: several composes whose source lists begin with the same object and
+// continue differently, some of them refused. A small head object A and two or three tail objects of other lengths are
+// stored if need be (bodies uploaded by a drawn protocol); then, one request per step: compose D1 = [A, T1] (accepted), a
+// compose with sources [A, T2 ...] that must be REFUSED - failing or unparsable destination condition, a per-source
+// ifGenerationMatch that fails on a later source, a missing later source - addressed to D1, to another name, to A or to a
+// tail; another accepted compose D2 = [A, T2], another refused one with yet another tail. The caller's dump after every
+// request compares the content of every object with the model and, after a refused request, with the dump before it.
+func composeChainStep(r *common.Rand, e *exec, o *progOpts, b string) string {
+	skip := func() string {
+		e.mustSame, e.readOnly = true, true
+		return ""
+	}
+	// head and tails: live objects of moderate size, else names that can be written now
+	var names []string
+	for _, n := range e.liveIn(b) {
+		if l := len(e.m.Get(b, n).Content); l > 0 && l <= 4096 && !strings.HasSuffix(n, "/") {
+			names = append(names, n)
+		}
+	}
+	common.Shuffle(r, names)
+	if len(names) > 3 {
+		names = names[:3]
+	}
+	cands := append([]string(nil), o.Names...)
+	common.Shuffle(r, cands)
+	planned := append([]string(nil), e.liveIn(b)...)
+	var fresh []string
+	for _, n := range cands {
+		if len(names)+len(fresh) >= 3 {
+			break
+		}
+		if e.m.Get(b, n) == nil && !contains(fresh, n) && !strings.HasSuffix(n, "/") && (!o.FileRules || representable(n, planned)) {
+			fresh = append(fresh, n)
+			planned = append(planned, n)
+		}
+	}
+	all := append(names, fresh...)
+	if len(all) < 3 {
+		return skip()
+	}
+	common.Shuffle(r, all)
+	head, tails := all[0], all[1:]
+	var dsts []string
+	for i := 1; i <= 3; i++ {
+		d := fmt.Sprintf("%s.cat%d", head, i)
+		if !o.FileRules || representable(d, planned) {
+			dsts = append(dsts, d)
+		}
+	}
+	if len(dsts) < 2 {
+		return skip()
+	}
+	added := false
+	for _, n := range dsts {
+		if !contains(e.universe[b], n) {
+			e.universe[b] = append(e.universe[b], n)
+			added = true
+		}
+	}
+	if added {
+		if msg := e.verify(); msg != "" {
+			return fmt.Sprintf("dump that first reads the names %q: %s", dsts, msg)
+		}
+	}
+	e.stats["compose_chain_scenarios"]++
+	var q []func(r *common.Rand) string
+	for _, n := range fresh {
+		n := n
+		q = append(q, func(r *common.Rand) string {
+			if e.m.Get(b, n) != nil || (o.FileRules && !representable(n, e.liveIn(b))) {
+				return skip()
+			}
+			u := genUpload(r, o, b, n)
+			u.Body = r.Bytes(r.Range(1, 300))
+			u.ContentEncoding, u.Conds, u.Gzip = "", model.Conds{}, false
+			if u.MD5 != "" {
+				u.MD5 = "right"
+			}
+			if floor := len(u.Body)/25 + 1; u.ChunkMax < floor {
+				u.ChunkMax = floor
+			}
+			return e.upload(u, r)
+		})
+	}
+	srcs := func(r *common.Rand, first string) []composeSrc {
+		out := []composeSrc{{Name: head}, {Name: first}}
+		for i, k := 0, r.Intn(3); i < k; i++ {
+			out = append(out, composeSrc{Name: common.Pick(r, tails)})
+		}
+		return out
+	}
+	accepted := func(dst, tail string) func(r *common.Rand) string {
+		return func(r *common.Rand) string {
+			if cur := e.m.Get(b, dst); cur == nil && o.FileRules && !representable(dst, e.liveIn(b)) {
+				return skip()
+			}
+			spec := &composeSpec{Bucket: b, Dst: dst, Srcs: srcs(r, tail), CT: common.Pick(r, contentTypes)}
+			if cur := e.m.Get(b, dst); cur != nil && r.Bool() {
+				spec.Conds.GM = model.I(cur.Gen)
+			} else if cur == nil && r.Bool() {
+				spec.Conds.GM = model.I(0)
+			}
+			before := e.stats["composes_ok"]
+			msg := e.compose(spec)
+			if e.stats["composes_ok"] > before {
+				e.stats["compose_chain_accepted_composes"]++
+			}
+			return msg
+		}
+	}
+	refused := func(tail string) func(r *common.Rand) string {
+		return func(r *common.Rand) string {
+			dst := common.Pick(r, append(append([]string{head}, dsts...), tails...))
+			if r.Bool() {
+				dst = dsts[0]
+			}
+			cur := e.m.Get(b, dst)
+			if cur == nil && o.FileRules && !representable(dst, e.liveIn(b)) {
+				return skip()
+			}
+			spec := &composeSpec{Bucket: b, Dst: dst, Srcs: srcs(r, tail), CT: common.Pick(r, contentTypes)}
+			other := int64(1700000000000000000)
+			if h := e.m.Get(b, head); h != nil {
+				other = h.Gen
+			}
+			how := r.Intn(8)
+			switch {
+			case how == 0 && cur != nil:
+				spec.Conds.GM = model.I(0)
+			case how == 1 && cur != nil:
+				spec.Conds.GNM = model.I(cur.Gen)
+			case how == 2 && cur != nil:
+				spec.Conds.MM = model.I(cur.Metagen + 1)
+			case how == 3:
+				spec.Conds.GM = model.S(common.Pick(r, junkValues))
+			case how == 4 || how == 5:
+				// a later source's generation condition fails
+				i := r.Range(1, len(spec.Srcs)-1)
+				g := int64(1700000000000000001)
+				if so := e.m.Get(b, spec.Srcs[i].Name); so != nil {
+					g = so.Gen + common.Pick(r, []int64{-1, 1})
+				}
+				spec.Srcs[i].GenMatch = model.I(g)
+			case how == 6:
+				spec.Srcs = append(spec.Srcs, composeSrc{Name: "missing-" + head})
+			default:
+				if cur != nil && cur.Gen != other {
+					spec.Conds.GM = model.I(other)
+				} else if cur != nil {
+					spec.Conds.GM = model.I(cur.Gen + 1)
+				} else {
+					spec.Conds.GM = model.I(other)
+				}
+			}
+			before := e.stats["compose_failures_expected"]
+			msg := e.compose(spec)
+			if e.stats["compose_failures_expected"] > before {
+				e.stats["compose_chain_refused_composes"]++
+				for _, d := range dsts {
+					if d != dst && e.m.Get(b, d) != nil {
+						e.stats["compose_chain_refused_composes_while_an_earlier_result_with_the_same_head_is_live"]++
+						break
+					}
+				}
+			}
+			return msg
+		}
+	}
+	t := func(i int) string { return tails[i%len(tails)] }
+	q = append(q, accepted(dsts[0], t(0)), refused(t(1)), accepted(dsts[1], t(1)), refused(t(0)))
+	if len(dsts) > 2 && r.Bool() {
+		q = append(q, accepted(dsts[2], t(0)), refused(t(1)))
+	}
+	e.queue = append(q[1:], e.queue...)
+	return q[0](r)
 }
